@@ -442,12 +442,15 @@ class Negative(Term):
     def replace_table(self, current_table: Optional["Table"], new_table: Optional["Table"]) -> "Negative":
         self.term = self.term.replace_table(current_table, new_table)
 
-    def get_sql(self, **kwargs: Any) -> str:
+    def get_sql(self, with_alias: bool = False, **kwargs: Any) -> str:
         term_sql = _operand_sql(self.term, **kwargs)
         if isinstance(self.term, (ArithmeticExpression, Negative)) or term_sql.startswith("-"):
             # the minus applies to the whole operand: -(a+b); "--" would start a comment: -(-a), -(-1)
             term_sql = "({})".format(term_sql)
-        return "-{term}".format(term=term_sql)
+        sql = "-{term}".format(term=term_sql)
+        if with_alias:
+            return format_alias_sql(sql, self.alias, **kwargs)
+        return sql
 
 
 class ValueWrapper(Term):
@@ -1159,7 +1162,7 @@ class NotNullCriterion(NullCriterion):
 
 
 class ComplexCriterion(BasicCriterion):
-    def get_sql(self, subcriterion: bool = False, **kwargs: Any) -> str:
+    def get_sql(self, subcriterion: bool = False, with_alias: bool = False, **kwargs: Any) -> str:
         sql = "{left} {comparator} {right}".format(
             comparator=self.comparator.value,
             left=self.left.get_sql(subcriterion=self.needs_brackets(self.left), **kwargs),
@@ -1167,7 +1170,10 @@ class ComplexCriterion(BasicCriterion):
         )
 
         if subcriterion:
-            return "({criterion})".format(criterion=sql)
+            sql = "({criterion})".format(criterion=sql)
+
+        if with_alias:
+            return format_alias_sql(sql, self.alias, **kwargs)
 
         return sql
 
